@@ -1,6 +1,188 @@
 import PgFdr.Json
+import PgFdr.Model.C13
 namespace PgFdr.Driver
-open Lean PgFdr
+open Lean PgFdr PgFdr.C13
+
+namespace C13D
+
+def txt (cs : List Char) : Json := .str (String.ofList cs)
+def err (e : Err) : Json := ofErr e.toString
+
+def jctx (j : Json) : R Ctx := do
+  pure { experiments := ← jstrs (← jget j "experiments"), silac := ← jint (← jget j "silac"), tmt := ← jint (← jget j "tmt") }
+
+def genNames : List (String × Gen) :=
+  [("ProteinAnnotationsColumns", .annotations), ("DiannProteinAnnotationsColumns", .diannAnnotations),
+   ("UniquePeptideCountColumns", .uniqueCounts), ("IdentificationTypeColumns", .idType),
+   ("SummedIntensityAndIbaqColumns", .sumIbaq), ("LFQIntensityColumns", .lfq),
+   ("SequenceCoverageColumns", .coverage), ("TMTIntensityColumns", .tmt), ("EvidenceIdsColumns", .evidenceIds)]
+
+def genName (g : Gen) : String :=
+  match genNames.find? (fun p => p.2 == g) with
+  | some p => p.1
+  | none => "?"
+
+def jgen (j : Json) : R Gen := do
+  let s ← jstr j
+  match genNames.lookup s with
+  | some g => pure g
+  | none => .error s!"unknown generator {s}"
+
+/-- `{"name": "maxquant"|"diann"|"minimal", "skip_lfq": bool}` -/
+def jwriter (j : Json) : R Writer := do
+  match ← jstr (← jget j "name") with
+  | "maxquant" => pure (.maxquant (← jbool (← jget j "skip_lfq")))
+  | "diann" => pure .diann
+  | "minimal" => pure .minimal
+  | s => .error s!"unknown writer {s}"
+
+/-- a row as the list of its cells: the nine base fields, then the extra columns -/
+def rowOfCells (cells : List String) (nprec : Nat) : R Row :=
+  match cells with
+  | a :: b :: c :: d :: e :: f :: g :: h :: i :: ex =>
+    pure { proteinIds := a, majorityProteinIds := b, peptideCountsUnique := c, bestPeptide := d,
+           numberOfProteins := e, qValue := f, score := g, reverse := h, potentialContaminant := i,
+           extra := ex, nprec := nprec }
+  | _ => .error "a row needs at least nine cells"
+
+/-- `{"cells": [...], "nprec": n}` -/
+def jrow (j : Json) : R Row := do
+  rowOfCells (← jstrs (← jget j "cells")) (← jnat (← jget j "nprec"))
+
+def ofTable (t : Table) : Json :=
+  obj [("headers", ofStrs t.headers),
+       ("rows", ofList (fun (r : Row) => Json.arr #[.str r.proteinIds, ofNat r.extra.length]) t.rows)]
+
+/-- `{"op":"table_gen","ctx":…,"gen":name}` → validity, the headers the generator appends, values per row -/
+def handleGen (j : Json) : R Json := do
+  let ctx ← jctx (← jget j "ctx")
+  let g ← jgen (← jget j "gen")
+  let dummy : Row := default
+  if !g.valid ctx then pure (obj [("valid", .bool false)]) else
+  match g.hdrs ctx with
+  | .error e => pure (obj [("valid", .bool true), ("err", .str e.toString)])
+  | .ok hs => pure (obj [("valid", .bool true), ("headers", ofStrs hs), ("arity", ofNat (g.vals ctx dummy).length)])
+
+/-- `{"op":"table","ctx":…,"rows":[…], "history":[names] | "writer":{…}}` → headers and per-row arities -/
+def handleTable (j : Json) : R Json := do
+  let ctx ← jctx (← jget j "ctx")
+  let rows ← jlist jrow (← jget j "rows")
+  let t := Table.init rows
+  match jgetOpt j "writer" with
+  | some wj =>
+    let w ← jwriter wj
+    match w.appendQuantColumns ctx t with
+    | .error e => pure (obj [("err", .str e.toString), ("columns", ofStrs (w.columns.map genName))])
+    | .ok t' => pure (obj [("headers", ofStrs t'.headers),
+        ("rows", ofList (fun (r : Row) => Json.arr #[.str r.proteinIds, ofNat r.extra.length]) t'.rows),
+        ("columns", ofStrs (w.columns.map genName))])
+  | none =>
+    let gs ← jlist jgen (← jget j "history")
+    match applyAll ctx t gs with
+    | .error e => pure (err e)
+    | .ok t' => pure (ofTable t')
+
+def jpairs (j : Json) : R (List (String × String)) :=
+  jlist (fun p => do
+    match p with
+    | .arr #[a, b] => pure (← jstr a, ← jstr b)
+    | _ => .error "expected [key, value]") j
+
+/-- `{"op":"table_write","headers":[…],"rows":[[cells…]…],"dict": null | [[k,v]…], "writer": null | {…}, "experiments":[…]}`
+    → the text of the file -/
+def handleWrite (j : Json) : R Json := do
+  let headers ← jstrs (← jget j "headers")
+  let rows ← (← jarr (← jget j "rows")).mapM (fun r => do rowOfCells (← jstrs r) 0)
+  let t : Table := { headers := headers, rows := rows }
+  let dict ← match jgetOpt j "writer" with
+    | some wj => do
+      let w ← jwriter wj
+      let ex ← jstrs (← jget j "experiments")
+      pure (some (w.headerDict { experiments := ex } t))
+    | none => match jgetOpt j "dict" with
+      | some dj => do pure (some (dictOfPairs (← jpairs dj)))
+      | none => pure none
+  match writeTable t dict with
+  | .error e => pure (err e)
+  | .ok text => pure (obj [("text", txt text)])
+
+/-- `{"op":"csv","rows":[[fields…]…]}` → `{"text": …}`;  `{"op":"csv","text": …}` → `{"rows": …}` -/
+def handleCsv (j : Json) : R Json := do
+  match jgetOpt j "rows" with
+  | some rj =>
+    let rows ← jlist jstrs rj
+    pure (obj [("text", txt (formatRows rows))])
+  | none =>
+    let text ← jstr (← jget j "text")
+    pure (obj [("rows", ofList ofStrs (parseText text.toList))])
+
+def jfval (j : Json) : R FVal :=
+  match j with
+  | .str "nan" => pure .nan
+  | .str "inf" => pure .pinf
+  | .str "-inf" => pure .ninf
+  | _ => do pure (.fin (← jrat j))
+
+def ofFVal : FVal → Json
+  | .nan => .str "nan"
+  | .pinf => .str "inf"
+  | .ninf => .str "-inf"
+  | .fin q => ofRat q
+
+/-- a number table `{cell: value | null}` as a function; `null` = the conversion raises -/
+def numTable {α} (conv : Json → R α) (j : Json) : R (List (String × Option α)) := do
+  match j with
+  | .obj kvs =>
+    kvs.toList.mapM (fun (k, v) => do
+      match v with
+      | .null => pure (k, none)
+      | _ => pure (k, some (← conv v)))
+  | _ => .error "expected an object"
+
+def lookupNum {α} (tbl : List (String × Option α)) (s : String) : Option α :=
+  match tbl.lookup s with
+  | some v => v
+  | none => none
+
+/-- every cell of the body rows must be a key of the table (a miss is a protocol error, not "bad number") -/
+def checkCovered {α} (name : String) (tbl : List (String × Option α)) (rows : List (List String)) : R Unit :=
+  match rows.flatten.find? (fun c => (tbl.lookup c).isNone) with
+  | some c => .error s!"{name} table has no entry for cell {c.quote}"
+  | none => pure ()
+
+def ofMqRow (r : MqRow) : Json :=
+  .arr #[.str r.proteinIds, .str r.majorityProteinIds, .str r.peptideCountsUnique, ofInt r.numberOfProteins,
+         ofFVal r.qValue, ofFVal r.score, .str r.reverse, .str r.potentialContaminant, ofStrs r.extra]
+
+/-- `{"op":"parse_mq","text":…,"additional":[…],"ints":{…},"floats":{…}}` -/
+def handleParseMq (j : Json) : R Json := do
+  let text ← jstr (← jget j "text")
+  let additional ← jstrs (← jget j "additional")
+  let ints ← numTable jint (← jget j "ints")
+  let floats ← numTable jfval (← jget j "floats")
+  let body := (parseText text.toList).drop 1
+  checkCovered "ints" ints body
+  checkCovered "floats" floats body
+  match parseMq (lookupNum ints) (lookupNum floats) additional text.toList with
+  | .error e => pure (err e)
+  | .ok (hs, rs) => pure (obj [("headers", ofStrs hs), ("rows", ofList ofMqRow rs)])
+
+/-- `{"op":"fdrfilter","files":[[name,text]…],"cutoff":fval,"floats":{…}}` → `{"out": text | null}` -/
+def handleFdrFilter (j : Json) : R Json := do
+  let files ← jpairs (← jget j "files")
+  let cutoff ← jfval (← jget j "cutoff")
+  let floats ← numTable jfval (← jget j "floats")
+  for (_, text) in files do
+    checkCovered "floats" floats ((parseText text.toList).drop 1)
+  match filterFiles (lookupNum floats) cutoff (files.map (fun (n, t) => (n, t.toList))) none with
+  | .error e => pure (err e)
+  | .ok none => pure (obj [("out", .null)])
+  | .ok (some o) => pure (obj [("out", txt o)])
+
+end C13D
+
 /-- protocol handlers of property C13: (op name, handler) -/
-def handlersC13 : List (String × (Json → R Json)) := []
+def handlersC13 : List (String × (Json → R Json)) :=
+  [("table_gen", C13D.handleGen), ("table", C13D.handleTable), ("table_write", C13D.handleWrite),
+   ("csv", C13D.handleCsv), ("parse_mq", C13D.handleParseMq), ("fdrfilter", C13D.handleFdrFilter)]
 end PgFdr.Driver
